@@ -290,6 +290,8 @@ def _len(I, self, args, kw, fr, site):
             m = I.E.find_attr(o.cls, "__len__")
             if m:
                 return call_value(I, VFunc(m["v"], v), [], {}, fr, site)
+            if I.E.contract_of(o.cls + ".__len__"):
+                return call_value(I, VFunc(o.cls + ".__len__", v), [], {}, fr, site)
     if isinstance(v, VExc):
         return VInt(len(v.args))
     if not fr.spec and isinstance(v, (VNone, VInt, VBool)):
@@ -424,7 +426,45 @@ def _repr(I, self, args, kw, fr, site):
 
 @intrinsic("builtins.min", "builtins.max")
 def _minmax(I, self, args, kw, fr, site):
-    raise Unsupported("min/max")
+    if len(args) == 2 and all(isinstance(a, (VInt, VBool)) for a in args):
+        x, y = zint(_int(args[0], I)), zint(_int(args[1], I))
+        ismin = site.startswith("call(min)")
+        return VInt(simp(z3.If(x <= y, x, y) if ismin else z3.If(x >= y, x, y)))
+    raise Unsupported("min/max of %s" % [I.type_name(a) for a in args])
+
+
+@intrinsic("builtins.sorted")
+def _sorted(I, self, args, kw, fr, site):
+    """sorted(d.keys()) for a symbolic int-keyed dict: a fresh strictly increasing list that enumerates
+    exactly the domain (quantified facts; assumed semantics of sorted/dict.keys)"""
+    st = I.st
+    v = args[0]
+    if isinstance(v, VRef) and st.heap[v.ref].kind == "skeys":
+        d = st.heap[st.heap[v.ref].data.ref]
+        dom = d.data["dom"]
+        t = st.fresh_seq("sorted_keys")
+        n = smt.slen(t)
+        i, j, k = z3.Ints("srt_i srt_j srt_k")
+        st.assume(n >= 0)
+        st.assume(z3.ForAll([i], z3.Implies(z3.And(0 <= i, i < n), z3.Select(dom, smt.sat_(t, i))), patterns=[smt.sat_(t, i)]))
+        st.assume(z3.ForAll([i, j], z3.Implies(z3.And(0 <= i, i < j, j < n), smt.sat_(t, i) < smt.sat_(t, j)),
+                            patterns=[z3.MultiPattern(smt.sat_(t, i), smt.sat_(t, j))]))
+        idx = z3.Function(st.fresh_name("key_index"), smt.Int, smt.Int)
+        st.assume(z3.ForAll([k], z3.Implies(z3.Select(dom, k), z3.And(0 <= idx(k), idx(k) < n, smt.sat_(t, idx(k)) == k)),
+                            patterns=[z3.Select(dom, k)]))
+        r = st.alloc("list", "slist")
+        st.heap[r.ref].data = VSeq([Seg("A", t, n)], "list")
+        st.heap[r.ref].hint = "sorted_keys"
+        return r
+    items = I.iter_concrete(v)
+    keys = []
+    for x in items:
+        h = I.hashable(x)
+        keys.append((h, x))
+    keys.sort(key=lambda p: p[0])
+    r = st.alloc("list", "list")
+    st.heap[r.ref].data = [x for _, x in keys]
+    return r
 
 
 @intrinsic("builtins.getattr")
@@ -845,6 +885,10 @@ def _d_get(I, self, args, kw, fr, site):
 @intrinsic("dict.keys")
 def _d_keys(I, self, args, kw, fr, site):
     o = I.st.heap[self.ref]
+    if o.kind == "sdict":
+        r = I.st.alloc("keys", "skeys")
+        I.st.heap[r.ref].data = self
+        return r
     r = I.st.alloc("list", "list")
     I.st.heap[r.ref].data = [I.from_py(k) for k in o.data]
     return r
